@@ -342,6 +342,8 @@ func (l *tcpTransportListener) serve(listener net.Listener) {
 		} else {
 			select {
 			case <-l.done:
+				// nobody is going to accept it anymore
+				_ = conn.Close()
 				return
 			case l.connChan <- conn:
 			}
